@@ -28,11 +28,24 @@ theorem linesAt_range (pre ls : List (List UInt8)) :
 theorem linesAt_all (ls : List (List UInt8)) : linesAt ls (rangeFrom 0 ls.length) = some ls := by
   simpa using linesAt_range [] ls
 
+/-- a generated (or no) first line: the exit code stays behind the expectation lines -/
+theorem withExitCode_false (body : List Char) (code : Int) :
+    withExitCode false body code = body ++ exitCodeOpt code := by
+  simp [withExitCode]
+
+theorem withExitCode_not_cont (k : Bool) (body : List Char) (code : Int) (h : body.take 2 ≠ ['>', ' ']) :
+    withExitCode k body code = body ++ exitCodeOpt code := by
+  simp [withExitCode, h]
+
+theorem withExitCode_cont (body : List Char) (code : Int) (h : body.take 2 = ['>', ' ']) :
+    withExitCode true body code = exitCodeLine code ++ body := by
+  simp [withExitCode, h]
+
 theorem generateTestcase_ok (m : Mode) (isOther : Char → Bool) (cmd : List Char) (out : List UInt8)
     (lines : List (List UInt8)) (code : Int) :
     generateTestcase m isOther cmd .ok out code = generateTestcaseUpd m isOther cmd [] .ok lines code := by
   unfold generateTestcase generateTestcaseUpd
-  cases expression cmd <;> simp
+  cases expression cmd <;> simp [withExitCode]
 
 theorem generateTestcase_invalidExit (m : Mode) (isOther : Char → Bool) (cmd : List Char) (out : List UInt8)
     (origs : List (List Char)) (actual code : Int) :
@@ -54,7 +67,10 @@ theorem generateTestcase_malformed (m : Mode) (isOther : Char → Bool) (cmd : L
   unfold generateTestcase generateTestcaseUpd
   cases expression cmd with
   | none => rfl
-  | some ex => simp only [diffBody_unexpected_all]
+  | some ex =>
+    have hk : firstKept [.unexpected (rangeFrom 0 ls.length)] = false := by
+      simp only [firstKept]; split <;> rfl
+    simp only [diffBody_unexpected_all, hk, withExitCode_false, List.append_assoc]
 
 /-- `createResult` is `validate` (`updResult`) of a test without expectations and without expected
 exit code -/
@@ -168,6 +184,148 @@ theorem diffBody_eq_slots (m : Mode) (isOther : Char → Bool) (origs : List (Li
       simp only [diffBody, DL.slots, slotsText_gen]
       cases (linesAt lines ls).bind (expectationLines m isOther) <;>
         cases diffBody m isOther origs lines d <;> rfl
+
+/-! ### where the exit code line goes (fix cfef990) -/
+
+/-- is the first entry of the list a retained expectation -/
+def headKept : List Slot → Bool
+  | .kept _ :: _ => true
+  | _ => false
+
+/-- `first_kept` of `generate_testcase` is: the first entry of the written list is a retained one -/
+theorem firstKept_slots (d : List DL) : firstKept d = headKept (slots d) := by
+  induction d with
+  | nil => rfl
+  | cons x d ih =>
+    have hs : slots (x :: d) = DL.slots x ++ slots d := by simp [slots]
+    rw [hs]
+    cases x with
+    | matched ei ls => rfl
+    | unmatched ei => simpa [firstKept, DL.slots] using ih
+    | unexpected ls =>
+      cases ls with
+      | nil => simpa [firstKept, DL.slots] using ih
+      | cons i r => simp [firstKept, DL.slots, headKept]
+
+theorem headKept_gen (ls : List Nat) : headKept (ls.map .gen) = false := by cases ls <;> rfl
+
+/-- `starts_with("> ")` of a text whose first line is `assure_newline` of `o` looks at `o` only -/
+theorem take2_assureNewlineC (o rest : List Char) :
+    ((assureNewlineC o ++ rest).take 2 == ['>', ' ']) = (o.take 2 == ['>', ' ']) := by
+  unfold assureNewlineC
+  match o with
+  | [] => simp
+  | [c] =>
+    by_cases hc : c = '\n'
+    · subst hc
+      cases rest <;> simp
+    · simp [hc]
+  | a :: b :: r => split <;> simp
+
+/-- `starts_with("> ")` of a list of expectation texts written one after the other: the first text decides -/
+def contHead : List (List Char) → Bool
+  | o :: _ => o.take 2 == ['>', ' ']
+  | [] => false
+
+/-- the first line written behind the command is a RETAINED original text that starts like a continuation
+line (`> `) -/
+def contFirst (origs : List (List Char)) : List Slot → Bool
+  | .kept ei :: _ => match origs[ei]? with | some o => o.take 2 == ['>', ' '] | none => false
+  | _ => false
+
+theorem withExitCode_contHead (origs : List (List Char)) (code : Int) :
+    withExitCode true (origs.flatMap assureNewlineC) code =
+      if contHead origs then exitCodeLine code ++ origs.flatMap assureNewlineC
+      else origs.flatMap assureNewlineC ++ exitCodeOpt code := by
+  cases origs with
+  | nil => simp [withExitCode, contHead]
+  | cons o r =>
+    simp only [withExitCode, List.flatMap_cons, take2_assureNewlineC, contHead, Bool.true_and]
+
+/-- **the placement of the exit code line**, `MalformedOutput`: in front iff the first entry is a
+retained text starting with `> `; otherwise behind the expectation lines and only if not 0 -/
+theorem withExitCode_slots (m : Mode) (isOther : Char → Bool) (origs : List (List Char))
+    (lines : List (List UInt8)) (sl : List Slot) (body : List Char) (code : Int)
+    (h : slotsText m isOther origs lines sl = some body) :
+    withExitCode (headKept sl) body code =
+      if contFirst origs sl then exitCodeLine code ++ body else body ++ exitCodeOpt code := by
+  cases sl with
+  | nil => simp [headKept, contFirst, withExitCode_false]
+  | cons s r =>
+    cases s with
+    | gen li => simp [headKept, contFirst, withExitCode_false]
+    | kept ei =>
+      simp only [slotsText, slotText] at h
+      cases ho : origs[ei]? with
+      | none => simp [ho] at h
+      | some o =>
+        cases hr : slotsText m isOther origs lines r with
+        | none => simp [ho, hr] at h
+        | some t =>
+          simp only [ho, hr, Option.map_some, Option.some.injEq] at h
+          subst h
+          simp only [headKept, contFirst, ho, withExitCode, take2_assureNewlineC, Bool.true_and]
+
+/-- a list that starts with a GENERATED line never has its exit code in front: a generated line does not
+start with `> ` (`line_ok`), so `first_kept` makes no difference for it -/
+theorem withExitCode_headKept_true {P : Params} (hP : StdParams P) (m : Mode) (isOther : Char → Bool)
+    (hC : m = .unicode → AsciiContract isOther) (origs : List (List Char))
+    (lines : List (List UInt8)) (hl : ∀ l ∈ lines, Newline.IsLine l) (sl : List Slot) (body : List Char) (code : Int)
+    (h : slotsText m isOther origs lines sl = some body) :
+    withExitCode (headKept sl) body code = withExitCode true body code := by
+  cases sl with
+  | nil =>
+    simp only [slotsText, Option.some.injEq] at h
+    subst h
+    simp [headKept, withExitCode]
+  | cons s r =>
+    cases s with
+    | kept ei => rfl
+    | gen li =>
+      simp only [slotsText, slotText] at h
+      cases hli : lines[li]? with
+      | none => simp [hli] at h
+      | some l =>
+        obtain ⟨t, ht, hok⟩ := line_ok hP m isOther hC (hl l (List.mem_of_getElem? hli))
+        cases hr : slotsText m isOther origs lines r with
+        | none => simp [hli, ht, hr] at h
+        | some rest =>
+          simp only [hli, Option.bind_some, ht, hr, Option.map_some, Option.some.injEq] at h
+          subst h
+          have hnc : ((t ++ ['\n']) ++ rest).take 2 ≠ ['>', ' '] := by
+            have hs := (commandLead_none_strip hok.no_lead).2
+            match t, hs with
+            | [], _ => simp
+            | [c], _ => simp
+            | a :: b :: r, hs =>
+              intro he
+              have : a = '>' ∧ b = ' ' := by simpa using he
+              simp [LineParser.stripPrefix, this.1, this.2] at hs
+          show withExitCode false _ code = _
+          rw [withExitCode_false, withExitCode_not_cont true _ code hnc]
+
+/-- `generate_testcase`, branch `Ok`, spelled out -/
+theorem generateTestcaseUpd_ok_text (m : Mode) (isOther : Char → Bool) (cmd ex : List Char)
+    (origs : List (List Char)) (lines : List (List UInt8)) (code : Int) (hex : expression cmd = some ex) :
+    generateTestcaseUpd m isOther cmd origs .ok lines code =
+      some (if contHead origs then ex ++ exitCodeLine code ++ origs.flatMap assureNewlineC
+            else ex ++ origs.flatMap assureNewlineC ++ exitCodeOpt code) := by
+  simp only [generateTestcaseUpd, hex, withExitCode_contHead]
+  split <;> simp
+
+/-- `generate_testcase`, branch `MalformedOutput`, spelled out -/
+theorem generateTestcaseUpd_malformed_text (m : Mode) (isOther : Char → Bool) (cmd ex : List Char)
+    (origs : List (List Char)) (lines : List (List UInt8)) (d : List DL) (code : Int)
+    (hex : expression cmd = some ex) :
+    generateTestcaseUpd m isOther cmd origs (.malformed d) lines code =
+      (slotsText m isOther origs lines (slots d)).map (fun b =>
+        if contFirst origs (slots d) then ex ++ exitCodeLine code ++ b else ex ++ b ++ exitCodeOpt code) := by
+  simp only [generateTestcaseUpd, hex, diffBody_eq_slots, firstKept_slots]
+  cases hb : slotsText m isOther origs lines (slots d) with
+  | none => rfl
+  | some b =>
+    simp only [Option.map_some, withExitCode_slots m isOther origs lines (slots d) b code hb]
+    split <;> simp
 
 /-! ### every entry matches "its" line -/
 
